@@ -17,7 +17,7 @@ RULE = (
     "base files: generated family (declared d vs columns c incl. d != c, rows incl. 19..22 around the sniffing window, "
     "WRAP NO/YES, DLM absent/SPACE/TAB/COMMA, full header) and every example file of the repository that reads; "
     "transformations enumerated at every applicable site: T1 blank line / T2 '#' comment line (plain, indented, carrying hyphens and dates) inserted at each line "
-    "boundary of a header-items or data section, T3 each inter-field whitespace run of data rows and each of the six "
+    "boundary of a header-items or data section, blocks of 20 / 21 / 22 / 45 blank or comment lines at the sites next to data rows, T3 each inter-field whitespace run of data rows and each of the six "
     "pad positions of header lines replaced by {1 blank, 3 blanks, tab}, and every data row of every whitespace-delimited file (corpus included) re-spaced with tab / 1 blank / 3 blanks / mixed, T4 trailing blanks on each line / leading "
     "blanks on each non-title line, T5 CRLF, T6 no final newline, T7 every re-cut of wrapped depth steps and every uniform re-flow of the whole token stream (1 value per line .. all values on one line), T8 "
     "re-delimiting with SPACE/TAB/COMMA x padding, plus each kind at all sites at once; thorough adds pairs of "
@@ -479,6 +479,8 @@ def _lay_json(lay):
 
 
 def check_point(pt, only=None):
+    from ..core import inputs as _inputs
+    _inputs.process_prelude()   # explored in a process that has already read many other files (see core/inputs.py)
     base = pt["base"]
     text = base_text(base)
     vio = []
